@@ -50,20 +50,23 @@ def model(rep, t):
                         invariants=['PickedUpIsComplete', 'NeverBadResult'], properties=['ResumeSkipsUpstream', 'DeleteRecomputes'])
     res = tlc.run_tlc('Checkpoint', cfg, allow_violation=False)
     rep.add_tlc(res, 'Checkpoint (file level) 4 runs: ResumeSkipsUpstream, DeleteRecomputes, NeverBadResult')
-    cfg = tlc.write_cfg(os.path.join(wd, 'ejtag.cfg'), constants={'OffsetAs': '"total"', 'KeepMicro': 'TRUE', 'WithTagObjects': 'TRUE'},
+    cfg = tlc.write_cfg(os.path.join(wd, 'ejtag.cfg'), constants={'OffsetAs': '"total"', 'KeepMicro': 'TRUE', 'WithTagObjects': 'TRUE', 'AwareBy': '"offset"'},
                         invariants=['RoundTripUnlessTagObject', 'TagObjectComesBackTyped'])
     res = tlc.run_tlc('Ejson', cfg, allow_violation=False)
     rep.add_tlc(res, 'Ejson catalogue + user dicts shaped like typed values: everything but those round-trips; they come back as the typed value')
-    cfg = tlc.write_cfg(os.path.join(wd, 'ejtag2.cfg'), constants={'OffsetAs': '"total"', 'KeepMicro': 'TRUE', 'WithTagObjects': 'TRUE'}, invariants=['RoundTripAll'])
+    cfg = tlc.write_cfg(os.path.join(wd, 'ejtag2.cfg'), constants={'OffsetAs': '"total"', 'KeepMicro': 'TRUE', 'WithTagObjects': 'TRUE', 'AwareBy': '"offset"'}, invariants=['RoundTripAll'])
     if not tlc.run_tlc('Ejson', cfg).violated:
         raise tlc.MachineryError('non-vacuity: Ejson with WithTagObjects must refute RoundTripAll (the encoding is not injective)')
     for oa, km, inv, expect in (('total', 'TRUE', 'RoundTripAll', False), ('seconds', 'TRUE', 'RoundTripAll', True), ('total', 'FALSE', 'RoundTripAll', True)):
-        cfg = tlc.write_cfg(os.path.join(wd, 'ej%s%s.cfg' % (oa, km)), constants={'OffsetAs': '"%s"' % oa, 'KeepMicro': km, 'WithTagObjects': 'FALSE'}, invariants=[inv])
+        cfg = tlc.write_cfg(os.path.join(wd, 'ej%s%s.cfg' % (oa, km)), constants={'OffsetAs': '"%s"' % oa, 'KeepMicro': km, 'WithTagObjects': 'FALSE', 'AwareBy': '"offset"'}, invariants=[inv])
         res = tlc.run_tlc('Ejson', cfg)
         if bool(res.violated) != expect:
             raise tlc.MachineryError('Ejson.tla OffsetAs=%s KeepMicro=%s: expected violation=%s' % (oa, km, expect))
         if not expect:
-            rep.add_tlc(res, 'Ejson boundary catalogue (offsets -12h..+14h, years 1..9999, microseconds): RoundTrip')
+            rep.add_tlc(res, 'Ejson boundary catalogue (offsets -12h..+14h, years 1..9999, microseconds, zones without a name): RoundTrip')
+    cfg = tlc.write_cfg(os.path.join(wd, 'ejname.cfg'), constants={'OffsetAs': '"total"', 'KeepMicro': 'TRUE', 'WithTagObjects': 'FALSE', 'AwareBy': '"name"'}, invariants=['RoundTripAll'])
+    if not tlc.run_tlc('Ejson', cfg).violated:
+        raise tlc.MachineryError('non-vacuity: Ejson with AwareBy="name" (a datetime is zone-aware iff a zone NAME was written) must refute RoundTripAll')
     return cases
 
 
@@ -279,7 +282,7 @@ def cps(s):
     return [ord(c) for c in s]
 
 
-ZERO = dict(kind='null', y=0, m=0, d=0, h=0, mi=0, s=0, us=0, aware=False, off=0, txt=[])
+ZERO = dict(kind='null', y=0, m=0, d=0, h=0, mi=0, s=0, us=0, aware=False, off=0, txt=[], named=False)
 
 
 def is_tagobj(v):
@@ -313,7 +316,7 @@ def project_value(v):
     if isinstance(v, datetime.datetime):
         off = v.utcoffset()
         return dict(z, kind='dt', y=v.year, m=v.month, d=v.day, h=v.hour, mi=v.minute, s=v.second, us=v.microsecond,
-                    aware=off is not None, off=int(off.total_seconds()) if off is not None else 0)
+                    aware=off is not None, off=int(off.total_seconds()) if off is not None else 0, named=off is not None and v.tzname() is not None)
     if isinstance(v, datetime.date):
         return dict(z, kind='date', y=v.year, m=v.month, d=v.day)
     if isinstance(v, datetime.time):
@@ -367,6 +370,26 @@ def leaves(v, w, o, path=''):
         yield path, v, w, o
 
 
+class _NoName(datetime.tzinfo):
+    def __init__(self, minutes):
+        self.minutes = minutes
+
+    def utcoffset(self, d):
+        return datetime.timedelta(minutes=self.minutes)
+
+    def dst(self, d):
+        return None
+
+    def tzname(self, d):
+        return None
+
+    def __deepcopy__(self, memo):
+        return _NoName(self.minutes)
+
+    def __reduce__(self):          # (tzinfo's own __reduce__ would rebuild the object without its argument)
+        return (_NoName, (self.minutes,))
+
+
 def catalogue_rows():
     D = decimal.Decimal
     tz = datetime.timezone
@@ -395,6 +418,11 @@ def catalogue_rows():
     # zone names say nothing about the offset: two zones called CST (Chicago, Shanghai), two called IST
     for j, (name, hours) in enumerate((('CST', -6), ('CST', 8), ('IST', 5.5), ('IST', 2), ('CST', -6))):
         rows.append(dict(i=110 + j, dt=datetime.datetime(2021, 3, 4, 9, 0, 0, tzinfo=tz(td(hours=hours), name)), dec=None, d=None, t=None, s=name, dur=None, arr=None, obj=None))
+    # zones that have no NAME (dateutil's tzoffset(None, seconds) - what set_type(format='any') produces -, a tzinfo of one's own)
+    from dateutil.tz import tzoffset
+
+    for j, zone in enumerate((tzoffset(None, 3600), tzoffset(None, -18000), _NoName(330), _NoName(-60))):
+        rows.append(dict(i=120 + j, dt=datetime.datetime(2020, 1, 2, 3, 4, 5, tzinfo=zone), dec=None, d=None, t=None, s='unnamed zone', dur=None, arr=None, obj=None))
     for x in rows:
         x.setdefault('anyv', None)
     return rows
@@ -474,7 +502,7 @@ def value_cells(item):
 def validate_cells(rep, cells):
     wd = tlc.workdir('c07t')
     tf = tlc.write_ndjson(os.path.join(wd, 'cells.ndjson'), [dict(inv=c['inv'], wr=c['wr'], outv=c['outv']) for c in cells])
-    cfg = tlc.write_cfg(os.path.join(wd, 'tr.cfg'), spec='TraceSpec', constants={'OffsetAs': '"total"', 'KeepMicro': 'TRUE', 'WithTagObjects': 'TRUE'}, constraints=['Verdict'])
+    cfg = tlc.write_cfg(os.path.join(wd, 'tr.cfg'), spec='TraceSpec', constants={'OffsetAs': '"total"', 'KeepMicro': 'TRUE', 'WithTagObjects': 'TRUE', 'AwareBy': '"offset"'}, constraints=['Verdict'])
     res = tlc.run_tlc('EjsonTrace', cfg, workers=1, env={'TRACE_FILE': tf}, allow_violation=False, timeout=3000)
     rep.add_tlc(res, 'EjsonTrace: %d typed cells through a real checkpoint' % len(cells))
     out = {v[0]: dict(same=v[1], same_dev=v[2], enc=v[3], dec=v[4]) for v in res.tuples('VERDICT')}
